@@ -501,6 +501,8 @@ type verifConv struct {
 	docker2oci bool
 	// minChunk: the MinChunkSize in effect for a source digest (<=0: none)
 	minChunk func(digest.Digest) int
+	// finalizeDesc: the converted image handed to finalize (nil: none, as for bare layer conversions)
+	finalizeDesc *ocispec.Descriptor
 }
 
 func (c *verifConv) gzipTarget() bool { return c.target != "zstdchunked" }
@@ -887,7 +889,7 @@ func verifOracleTOCImage(out verifEmitter, rnd *verifutil.Rand, cs content.Store
 	ctx := context.Background()
 	id := fmt.Sprintf("%s %s/%s", where, c.target, c.variant)
 	ref := fmt.Sprintf("reg.test/verif/img%d:v%d", rnd.Intn(100), rnd.Intn(100))
-	img, err := c.finalize(ctx, cs, ref, nil)
+	img, err := c.finalize(ctx, cs, ref, c.finalizeDesc)
 	if err != nil {
 		out.Fail("finalize-error", fmt.Sprintf("%s: %v", id, err))
 		return
@@ -1454,9 +1456,143 @@ func verifImage(t *testing.T, out *verifutil.Out, rnd *verifutil.Rand, target st
 			out.Fail("image-config-diffid-mismatch", fmt.Sprintf("%s: layer %d: config says %v, decompressed layer hashes to %s", id, i, ncfg.RootFS.DiffIDs, verifSha(st)))
 		}
 	}
+	c.finalizeDesc = nd
 	verifCheckBatch(out, rnd, cs, c, srcs, res, fmt.Sprintf("image#%d", round))
 	out.Count("image:" + target)
 	out.Distinct(fmt.Sprintf("image:%s:%s:%d:%v:%s", c.target, c.variant, n, docker, c.optDesc))
+}
+
+// verifRetryHalf: for the given converter, HALF OF A PREVIOUS OUTPUT is left under the converter's own
+// ingest ref (the writer was closed without commit or abort, as a killed conversion leaves it), then the
+// conversion is retried by the same converter instance.  The size of the output is learnt from a
+// complete conversion of the same source by the same instance against a scratch store.
+func verifRetryHalf(t *testing.T, out *verifutil.Out, rnd *verifutil.Rand, target string, round int) {
+	ctx := context.Background()
+	cs, scratch := verifNewStore(t), verifNewStore(t)
+	mt, comp := verifPickMT(rnd, target)
+	src := verifNewSrc(t, cs, rnd, mt, comp, fmt.Sprintf("h%d", round))
+	if err := content.WriteBlob(ctx, scratch, "verif-copy", bytes.NewReader(src.blob), src.desc); err != nil {
+		t.Fatal(err)
+	}
+	c := verifNewConv(rnd, target, []*verifSrc{src}, rnd.Bool())
+	prefix := "convert-estargz-from-"
+	if target == "zstdchunked" {
+		prefix = "convert-zstdchunked-from-"
+	}
+	out.Comment(fmt.Sprintf("retry-half %s/%s src=%s opts=%s", c.target, c.variant, mt, c.optDesc))
+	first := verifConvertOne(ctx, c, scratch, src.desc)
+	if first.nd == nil {
+		out.Fail("unexpected-conversion-error", fmt.Sprintf("retry-half %s/%s: first conversion: err=%v panic=%v", c.target, c.variant, first.err, first.panic))
+		return
+	}
+	half := first.nd.Size / 2
+	fs := &verifFailStore{Store: cs, prefix: prefix, after: half}
+	r := verifConvertOne(ctx, c, fs, src.desc)
+	if !errors.Is(r.err, errVerifInterrupted) {
+		out.Fail("interrupted-conversion-other-error", fmt.Sprintf("retry-half %s/%s: cut at %d of %d: nd=%v err=%v panic=%v", c.target, c.variant, half, first.nd.Size, r.nd, r.err, r.panic))
+	}
+	// the stale half really sits under the ref the retry will open
+	left := int64(-1)
+	if st, err := cs.Status(ctx, prefix+src.desc.Digest.String()); err == nil {
+		left = st.Offset
+	}
+	if left != half {
+		out.Fail("harness-leftover-not-in-place", fmt.Sprintf("retry-half %s: ingest %s%s holds %d bytes, want %d", c.target, prefix, src.desc.Digest, left, half))
+	}
+	res := verifConvertOne(ctx, c, cs, src.desc)
+	verifCheckBatch(out, rnd, cs, c, []*verifSrc{src}, []verifResult{res}, fmt.Sprintf("retry-half#%d(left %d of %d)", round, half, first.nd.Size))
+	if res.nd != nil && (res.nd.Digest != first.nd.Digest || res.nd.Size != first.nd.Size) {
+		out.Fail("retry-result-differs-from-clean-run", fmt.Sprintf("retry-half %s/%s: clean run %s/%d, retried run %s/%d", c.target, c.variant, first.nd.Digest, first.nd.Size, res.nd.Digest, res.nd.Size))
+	}
+	out.Count("retry-half:" + target)
+	out.Distinct(fmt.Sprintf("retry-half:%s:%s:%s:%s", c.target, c.variant, mt, c.optDesc))
+}
+
+// verifPutJSON stores a JSON document and returns its descriptor.
+func verifPutJSON(t *testing.T, cs content.Store, mt string, v any) ocispec.Descriptor {
+	b, _ := json.Marshal(v)
+	d := ocispec.Descriptor{MediaType: mt, Digest: verifSha(b), Size: int64(len(b))}
+	if err := content.WriteBlob(context.Background(), cs, "verif-json-"+d.Digest.Encoded(), bytes.NewReader(b), d); err != nil {
+		t.Fatal(err)
+	}
+	return d
+}
+
+// verifImageIndex: a multi-platform index (linux/amd64 + linux/arm64; one shared base layer, one
+// layer specific to each platform) converted by containerd's DefaultIndexConvertFunc for ALL platforms,
+// then finalize(…, converted index): the TOC image must map EVERY converted layer of EVERY platform.
+func verifImageIndex(t *testing.T, out *verifutil.Out, rnd *verifutil.Rand, target string, round int) {
+	ctx := context.Background()
+	cs := verifNewStore(t)
+	mk := func(salt string) *verifSrc {
+		comp := []string{"none", "gzip"}[rnd.Intn(2)]
+		mt := map[string]string{"none": ocispec.MediaTypeImageLayer, "gzip": ocispec.MediaTypeImageLayerGzip}[comp]
+		return verifNewSrc(t, cs, rnd, mt, comp, fmt.Sprintf("x%d_%s", round, salt))
+	}
+	base, la, lb := mk("base"), mk("amd64"), mk("arm64")
+	perPlatform := [][]*verifSrc{{base, la}, {base, lb}}
+	if rnd.Bool() { // platform specific layer below the shared one
+		perPlatform = [][]*verifSrc{{la, base}, {lb, base}}
+	}
+	var mfs []ocispec.Descriptor
+	for i, arch := range []string{"amd64", "arm64"} {
+		p := ocispec.Platform{Architecture: arch, OS: "linux"}
+		var layers []ocispec.Descriptor
+		var diffIDs []digest.Digest
+		for _, s := range perPlatform[i] {
+			layers = append(layers, s.desc)
+			diffIDs = append(diffIDs, verifSha(s.stream))
+		}
+		cfg := verifPutJSON(t, cs, ocispec.MediaTypeImageConfig, ocispec.Image{Platform: p, RootFS: ocispec.RootFS{Type: "layers", DiffIDs: diffIDs}})
+		md := verifPutJSON(t, cs, ocispec.MediaTypeImageManifest, ocispec.Manifest{Versioned: ocispecs.Versioned{SchemaVersion: 2},
+			MediaType: ocispec.MediaTypeImageManifest, Config: cfg, Layers: layers})
+		md.Platform = &p
+		mfs = append(mfs, md)
+	}
+	idx := verifPutJSON(t, cs, ocispec.MediaTypeImageIndex, ocispec.Index{Versioned: ocispecs.Versioned{SchemaVersion: 2},
+		MediaType: ocispec.MediaTypeImageIndex, Manifests: mfs})
+	all := []*verifSrc{base, la, lb}
+	c := verifNewConv(rnd, target, all, rnd.Bool())
+	c.docker2oci = true
+	out.Comment(fmt.Sprintf("index(amd64+arm64) %s/%s opts=%s", c.target, c.variant, c.optDesc))
+	id := fmt.Sprintf("index#%d %s/%s", round, c.target, c.variant)
+	var nd *ocispec.Descriptor
+	var err error
+	func() {
+		defer func() {
+			if r := recover(); r != nil {
+				err = fmt.Errorf("panic: %v", r)
+			}
+		}()
+		nd, err = converter.DefaultIndexConvertFunc(c.fn, true, platforms.All)(ctx, cs, idx)
+	}()
+	if err != nil || nd == nil {
+		out.Fail("image-conversion-failed", fmt.Sprintf("%s: nd=%v err=%v", id, nd, err))
+		return
+	}
+	var nidx ocispec.Index
+	if b, err := verifReadBlob(cs, nd.Digest); err != nil || json.Unmarshal(b, &nidx) != nil || len(nidx.Manifests) != 2 {
+		out.Fail("image-conversion-failed", fmt.Sprintf("%s: converted index unreadable or not 2 manifests: %v", id, err))
+		return
+	}
+	var srcs []*verifSrc
+	var res []verifResult
+	for i, m := range nidx.Manifests {
+		var nmf ocispec.Manifest
+		if b, err := verifReadBlob(cs, m.Digest); err != nil || json.Unmarshal(b, &nmf) != nil || len(nmf.Layers) != 2 {
+			out.Fail("image-layer-count", fmt.Sprintf("%s: manifest %d unreadable or not 2 layers: %v", id, i, err))
+			return
+		}
+		for j := range nmf.Layers {
+			l := nmf.Layers[j]
+			srcs = append(srcs, perPlatform[i][j])
+			res = append(res, verifResult{nd: &l})
+		}
+	}
+	c.finalizeDesc = nd // finalize is told which image it finalizes
+	verifCheckBatch(out, rnd, cs, c, srcs, res, fmt.Sprintf("index#%d", round))
+	out.Count("index:" + target)
+	out.Distinct(fmt.Sprintf("index:%s:%s:%s", c.target, c.variant, c.optDesc))
 }
 
 // verifCorruptCompression is an external-TOC gzip compression whose data writer alters the stream it
@@ -1755,20 +1891,30 @@ func TestVerifC19(t *testing.T) {
 	// 3. random
 	for i := 0; i < n; i++ {
 		tg := verifTargets[rnd.Intn(4)]
-		switch rnd.Pick(4, 3, 2) {
+		switch rnd.Pick(4, 2, 2, 2, 1) {
 		case 0:
 			verifConcurrent(t, out, rnd, tg, 3+rnd.Intn(7), round)
 		case 1:
 			verifRetry(t, out, rnd, tg, round)
-		default:
+		case 2:
+			verifRetryHalf(t, out, rnd, tg, round)
+		case 3:
 			verifImage(t, out, rnd, tg, round)
+		default:
+			verifImageIndex(t, out, rnd, tg, round)
 		}
 		round++
 	}
 	for _, tg := range verifTargets {
 		verifRetry(t, out, rnd, tg, round)
 		round++
+		verifRetryHalf(t, out, rnd, tg, round)
+		round++
 		verifImage(t, out, rnd, tg, round)
+		round++
+	}
+	for _, tg := range []string{"exttoc", "exttoc-lossless", verifTargets[rnd.Intn(2)]} {
+		verifImageIndex(t, out, rnd, tg, round)
 		round++
 	}
 	for i := 0; i < 2+n/8; i++ {
